@@ -8,6 +8,7 @@ decorated / wrapped with all their variants), all hyper-parameter dicts, all tra
 all `set_params` sequences and all inputs.
 -/
 import ForML.Lemmas.C13
+import ForML.Model.ActorClass
 
 namespace ForML.Actor
 
@@ -722,6 +723,86 @@ def C13_stateful_legacy_full : Prop := ∀ tm : TrainMap, tm.statefulLegacy = tm
 theorem C13_stateful_legacy_counterexample : ¬ C13_stateful_legacy_full := by
   intro h; exact absurd (h .noncallable) (by decide)
 
+/-! ### is_stateful over class hierarchies: the answer does not depend on the query history -/
+
+/-- **`is_stateful` of an actor class derived from other actor classes depends only on that class'
+own resolved definition** (does it, or an ancestor, define `train`), not on which classes of the
+family were asked before, in whatever order and from whatever class state: it is the
+`hasTrain`/`isStateful` of the flavour the class resolves to (`classFlavour`), so every theorem
+above applies to derived actors unchanged. -/
+theorem C13_stateful_history_free (u : User σ) (sig : Sig) (tbl : Classes) (attrs : ClassAttrs) (hist : List Nat) (c : Nat) :
+    (statefulPure tbl (runQueries statefulPure tbl attrs hist).1 c).2 = resolvesTrain tbl c ∧
+    ((classFlavour sig tbl c).toFlavour u).hasTrain = resolvesTrain tbl c ∧
+    ((classFlavour sig tbl c).toFlavour u).isStateful = resolvesTrain tbl c := by
+  refine ⟨rfl, ?_, ?_⟩ <;>
+    (unfold classFlavour; cases resolvesTrain tbl c <;> cases resolvesState tbl c <;> rfl)
+
+/-- the same for an implementation that memoises the answer by plain attribute access -/
+def C13_stateful_cached_inherited_full : Prop :=
+  ∀ (tbl : Classes) (hist : List Nat) (c : Nat), answerAfter statefulCachedInherited tbl hist c = resolvesTrain tbl c
+
+/-- a stateless base asked first, then its subclass that adds `train`: the subclass inherits the
+cached `False` (the class of defects the family scripts of the check look for) -/
+theorem C13_stateful_cached_inherited_counterexample : ¬ C13_stateful_cached_inherited_full := by
+  intro h
+  have := h [⟨none, false, false⟩, ⟨some 0, true, false⟩] [0] 1
+  revert this
+  decide
+
+private theorem ownAttr_setAttr (attrs : ClassAttrs) (c c' : Nat) (v : Bool) :
+    ownAttr (setAttr attrs c v) c' = if c' = c then some v else ownAttr attrs c' := by
+  unfold ownAttr setAttr
+  rw [List.getElem?_set]
+  by_cases h : c = c'
+  · subst h
+    have : c < attrs.length + (c + 1 - attrs.length) := by omega
+    simp [this]
+  · have h' : ¬ c' = c := fun e => h e.symm
+    simp only [h, h', if_false]
+    by_cases hl : c' < attrs.length
+    · rw [List.getElem?_append_left hl]
+    · have hge : attrs.length ≤ c' := Nat.le_of_not_lt hl
+      rw [List.getElem?_append_right hge, List.getElem?_eq_none_iff.2 hge]
+      cases hr : (List.replicate (c + 1 - attrs.length) (none : Option Bool))[c' - attrs.length]? with
+      | none => rfl
+      | some x =>
+        have := List.mem_of_getElem? hr
+        rw [List.mem_replicate] at this
+        rw [this.2]; rfl
+
+/-- every cached value is the right one -/
+private def GoodCache (tbl : Classes) (attrs : ClassAttrs) : Prop :=
+  ∀ c v, ownAttr attrs c = some v → v = resolvesTrain tbl c
+
+private theorem cachedOwn_step (tbl : Classes) (attrs : ClassAttrs) (hg : GoodCache tbl attrs) (c : Nat) :
+    (statefulCachedOwn tbl attrs c).2 = resolvesTrain tbl c ∧ GoodCache tbl (statefulCachedOwn tbl attrs c).1 := by
+  unfold statefulCachedOwn
+  cases ho : ownAttr attrs c with
+  | some v => exact ⟨hg c v ho, hg⟩
+  | none =>
+    refine ⟨rfl, fun c' v hv => ?_⟩
+    simp only [ownAttr_setAttr] at hv
+    by_cases h : c' = c
+    · subst h; simp at hv; exact hv.symm
+    · simp only [h, if_false] at hv; exact hg c' v hv
+
+private theorem cachedOwn_run (tbl : Classes) (hist : List Nat) (attrs : ClassAttrs) (hg : GoodCache tbl attrs) :
+    GoodCache tbl (runQueries statefulCachedOwn tbl attrs hist).1 := by
+  induction hist generalizing attrs with
+  | nil => exact hg
+  | cons c rest ih =>
+    simp only [runQueries]
+    exact ih _ (cachedOwn_step tbl attrs hg c).2
+
+/-- A memoising `is_stateful` that keeps its cache in the class' *own* `__dict__` is history-free
+too (induction over the query history with the invariant "every cached value is right"): such a
+refactoring is harmless and the check stays quiet on it. -/
+theorem C13_stateful_cached_own_history_free (tbl : Classes) (hist : List Nat) (c : Nat) :
+    answerAfter statefulCachedOwn tbl hist c = resolvesTrain tbl c := by
+  have hg : GoodCache tbl (runQueries statefulCachedOwn tbl [] hist).1 :=
+    cachedOwn_run tbl hist [] (fun c v h => by simp [ownAttr] at h)
+  exact (cachedOwn_step tbl _ hg c).1
+
 /-! ### builders -/
 
 /-- `Builder.update` merges the keywords (new values win) and replaces the positionals only if new
@@ -799,5 +880,12 @@ example :
 example : WrappedInv (σ := Int) { pos := [0, 2], defaults := [(0, 1), (2, 0)], hidden := [2] } .absent
     { params := [(0, 1), (2, 7)], state := none, ctor := ([], [(2, 7)]) } :=
   ⟨{ params := [(0, 1), (2, 7)], state := none }, rfl, by decide, fun _ _ hk => hk, fun _ => ⟨rfl, fun _ _ => rfl⟩⟩
+
+/-- a family: stateless base, subclass adding `train`, sub-subclass with its own state methods, an
+unrelated stateful class and its subclass: resolution per class -/
+example : let tbl : Classes := [⟨none, false, false⟩, ⟨some 0, true, false⟩, ⟨some 1, false, true⟩, ⟨none, true, false⟩, ⟨some 3, false, false⟩]
+    (List.range 5).map (resolvesTrain tbl) = [false, true, true, true, true] ∧
+    (List.range 5).map (classFlavour exSig tbl) =
+      [.native exSig false, .native exSig true, .custom exSig, .native exSig true, .native exSig true] := by decide
 
 end ForML.Actor
